@@ -288,6 +288,28 @@ package bytecode
 //@   presumes wf: (((*l) is *ast.AstString) ==> ((*l) as *ast.AstString) != nil) && (((*l) is *ast.AstCharacterClass) ==> ((*l) as *ast.AstCharacterClass) != nil) && (((*l) is *ast.AstRange) ==> ((*l) as *ast.AstRange) != nil && ((*l) as *ast.AstRange).From != nil && ((*l) as *ast.AstRange).To != nil)
 //@   ensures one: result.1 == nil ==> len(result.0) == 1 && listableInst(result.0[0], *l)
 
+// Layout of an `in` list (C01): Branch, then per item k its leaf at 1+2k and a Jump at 2+2k; the Branch
+// instruction points at the leaves in the order written and every Jump at the position after the code. That position 1+2k holds
+// the leaf of item k (generateListable's contract for the one instruction it returns, carried through the
+// slice of slices) discharges for the first two loops and not for the copy loop; it is not claimed.
+//@ func generate_not_not [C01]
+//@   noframe
+//@   requires l != nil
+//@   let n := len(l.Contents)
+//@   ensures size: result.1 == nil ==> len(result.0) == 2 * n + 1
+//@   ensures branch: result.1 == nil ==> result.0[0] is Branch && len((result.0[0] as Branch).Branches) == n && (forall k :: { (result.0[0] as Branch).Branches[k] } 0 <= k && k < n ==> (result.0[0] as Branch).Branches[k] == offset + 1 + 2 * k)
+//@   ensures jumps: result.1 == nil ==> forall p :: { result.0[p] } 1 <= p && p < 2 * n + 1 && p % 2 == 0 ==> result.0[p] is Jump && (result.0[p] as Jump).NewProgramCounter == offset + 1 + 2 * n
+//@   loop 1 invariant place: fresh(branches) && fresh(b.Branches) && rangeindex < n && len(branches) == rangeindex + 1 && len(b.Branches) == rangeindex + 1 && pc == offset + 1 + 2 * (rangeindex + 1) && l.Contents == old(l.Contents) && len(l.Contents) == n
+//@   loop 1 invariant targets: forall k :: { b.Branches[k] } 0 <= k && k <= rangeindex ==> b.Branches[k] == offset + 1 + 2 * k
+//@   loop 1 invariant ones: forall k :: { branches[k] } 0 <= k && k <= rangeindex ==> len(branches[k]) == 1
+//@   loop 2 invariant sum: rangeindex < len(branches) && len(branches) == n && end == offset + 1 + 2 * (rangeindex + 1) && len(b.Branches) == n
+//@   loop 2 invariant targets: forall k :: { b.Branches[k] } 0 <= k && k < n ==> b.Branches[k] == offset + 1 + 2 * k
+//@   loop 2 invariant ones: forall k :: { branches[k] } 0 <= k && k < n ==> len(branches[k]) == 1
+//@   loop 3 invariant place: fresh(insts) && rangeindex < len(branches) && len(branches) == n && len(insts) == 1 + 2 * (rangeindex + 1) && end == offset + 1 + 2 * n
+//@   loop 3 invariant head: insts[0] is Branch && len((insts[0] as Branch).Branches) == n && (forall k :: { (insts[0] as Branch).Branches[k] } 0 <= k && k < n ==> (insts[0] as Branch).Branches[k] == offset + 1 + 2 * k)
+//@   loop 3 invariant ones: forall k :: { branches[k] } 0 <= k && k < n ==> len(branches[k]) == 1
+//@   loop 3 invariant jumps: forall p :: { insts[p] } 1 <= p && p < len(insts) && p % 2 == 0 ==> insts[p] is Jump && (insts[p] as Jump).NewProgramCounter == end
+
 // Layout of a `not in` list (C01): per item k the triple StartNotIn, the item's leaf, FailNotIn at
 // 3k, 3k+1, 3k+2 (stated per position p: p % 3 picks the role, p / 3 the item); every StartNotIn points at the position after its own triple (the next item's
 // StartNotIn, or the closing EndNotIn), and EndNotIn closes the code. The size EndNotIn consumes is
